@@ -535,8 +535,12 @@ __strfd_card(
 		if (UNLIKELY(s.tai && d->flags.real_y_in_q)) {
 			y = d->q;
 		} else if (s.tai) {
-			/* oh we want ISO week dates */
-			y = dt_dconv(DT_YWD, that).ywd.y;
+			/* oh we want ISO week dates, of the civil date in the
+			 * case of business-day dates */
+			y = dt_dconv(
+				DT_YWD,
+				that.typ != DT_BIZDA
+				? that : dt_dconv(DT_YMD, that)).ywd.y;
 		}
 		switch (s.abbr) {
 		case DT_SPMOD_LONG:
@@ -686,10 +690,21 @@ __strfd_card(
 			/* %j */
 			int yd;
 			if (LIKELY(!s.bizda)) {
-				yd = __ymd_get_yday(that.ymd);
-			} else {
+				/* a business-day date has its own slots, the
+				 * day of the year is that of the civil date */
+				yd = __ymd_get_yday(
+					that.typ == DT_YMD
+					? that.ymd
+					: dt_dconv(DT_YMD, that).ymd);
+			} else if (that.typ == DT_BIZDA) {
 				yd = __bizda_get_yday(
 					that.bizda, __get_bizda_param(that));
+			} else {
+				/* business days from new year up to that day,
+				 * on a weekend up to the friday before */
+				yd = __get_nbdays(
+					__ymd_get_yday(that.ymd),
+					__ymd_get_wday(that.ymd));
 			}
 			if (yd >= 0) {
 				res = ui999topstr(
@@ -724,7 +739,11 @@ __strfd_card(
 		}
 		break;
 	case DT_SPFL_N_WCNT_YEAR: {
-		int yw = dt_get_wcnt_year(that, s.wk_cnt);
+		/* week counts of a business-day date are those of the civil
+		 * date it denotes */
+		int yw = dt_get_wcnt_year(
+			that.typ != DT_BIZDA ? that : dt_dconv(DT_YMD, that),
+			s.wk_cnt);
 		res = ui99topstr(
 			buf, bsz, yw, 2 - (s.pad == DT_SPPAD_OMIT), padchar(s));
 		break;
